@@ -205,7 +205,22 @@ func runTrajectoryHook(sc *Scenario, env *Env, oc *OutputCfg, oracles []Oracle, 
 					rel := strings.TrimPrefix(p, root)
 					b, err := os.ReadFile(root2 + rel)
 					if err != nil || string(b) != string(disk.Get(p).Data) {
-						res.Harness = fmt.Sprintf("simulated disk and real disk disagree on %s (real: %d bytes, err %v; simulated: %d bytes)", rel, len(b), err, len(disk.Get(p).Data))
+						sim := disk.Get(p).Data
+						if sc.Prop == "C05" && err == nil {
+							// C05 is a statement about the result files themselves: the recorded stream is what the run wrote (judged by the record
+							// oracle, so a real file with other content holds records the run's configuration does not schedule
+							what := "other content"
+							if len(b) > len(sim) && string(b[:len(sim)]) == string(sim) {
+								what = "the run's records followed by what an earlier run had left in the file"
+							} else if len(b) < len(sim) && string(sim[:len(b)]) == string(b) {
+								what = "only a prefix of the run's records"
+							}
+							res.Violations = append(res.Violations, Violation{Prop: sc.Prop, Oracle: "real-disk", Class: "result-file-on-real-disk-not-exactly-the-runs-records",
+								Detail: fmt.Sprintf("shipped file writer over a stale file of an earlier run: %s holds %s (real %d bytes, records written by the run %d bytes)", rel, what, len(b), len(sim))})
+							res.Status = "violation"
+							break
+						}
+						res.Harness = fmt.Sprintf("simulated disk and real disk disagree on %s (real: %d bytes, err %v; simulated: %d bytes)", rel, len(b), err, len(sim))
 						break
 					}
 					n++
